@@ -30,6 +30,8 @@ var c02Blocks = []string{
 	`%a <table role="grid"><tr><td>%b</td><td>%c</td></tr><tr><td>y%b</td><td>y%c</td></tr></table> z%a`,
 	`<div style="DISPLAY: none"><p>%h</p></div><p>%a <span style="VISIBILITY:hidden">%h</span></p>`,
 	`<p>%a <span style="color:red; visibility:hidden">%h</span> <font style="margin:0;display:none" color="red">%h</font></p>`,
+	`<figure><img src="g.png"><figcaption>%a<br>%b <span hidden>%h</span><div>%c</div></figcaption></figure>`,
+	`<div>%a <table><caption>%b</caption><thead><tr><th>h</th></tr></thead><tr><td>%c</td></tr></table> z%a</div>`,
 }
 
 type c02Counter struct{}
@@ -44,6 +46,8 @@ var c02Visible = [][]string{
 	{"a", "b", "c"}, {"a", "b"}, {"a"}, {"a", "b", "c", "yb", "yc", "za"},
 	{"a"},
 	{"a"},
+	{"a", "b", "c"},
+	{"a", "b", "c", "za"},
 }
 
 func c02Page(n int) (string, []string) {
@@ -80,8 +84,10 @@ func c02Check(words []string, order []string, view string) {
 		if !ok {
 			if strings.HasPrefix(w, "w") && len(w) == 3 && strings.HasSuffix(w, "h") {
 				vx.Assert(false, view+": a word of a hidden element was emitted")
+			} else if w != "h" {
+				vx.Assert(false, view+": a word that is not a visible word of the source was emitted")
 			}
-			continue // fixed filler words of the templates
+			continue
 		}
 		vx.Assert(!seen[w], view+": a source word is emitted twice")
 		seen[w] = true
